@@ -253,6 +253,70 @@ func runStress(t *testing.T, thorough bool) []stressResult {
 		wg.Wait()
 		return int(n.Load()), int(bad.Load()), ""
 	})
+	// 5. one retry policy with jitter, jitter factor and a random delay shared by many executions (random draws)
+	watchdog("shared-jittered-retry", func() (int, int, string) {
+		rps := []retrypolicy.RetryPolicy[int]{
+			retrypolicy.Builder[int]().WithMaxRetries(3).WithDelay(20 * time.Microsecond).WithJitter(10 * time.Microsecond).Build(),
+			retrypolicy.Builder[int]().WithMaxRetries(3).WithDelay(20 * time.Microsecond).WithJitterFactor(0.5).Build(),
+			retrypolicy.Builder[int]().WithMaxRetries(3).WithRandomDelay(5*time.Microsecond, 30*time.Microsecond).Build(),
+		}
+		var wg sync.WaitGroup
+		var bad, n atomic.Int64
+		for g := 0; g < 12; g++ {
+			g := g
+			wg.Add(1)
+			go func() {
+				defer wg.Done()
+				for i := 0; i < iters/5+1; i++ {
+					n.Add(1)
+					calls := 0
+					_, err := failsafe.Get(func() (int, error) { calls++; return 0, errA }, rps[(g+i)%3])
+					if err == nil || calls != 4 {
+						bad.Add(1)
+					}
+				}
+			}()
+		}
+		wg.Wait()
+		return int(n.Load()), int(bad.Load()), ""
+	})
+	// 6. a timeout around a hedge policy around result-handling policies, with attempts that outlive the timeout: the
+	// timeout's result is returned outwards while late hedge attempts are still being post-processed inside
+	watchdog("timeout-hedge-breaker-fallback", func() (int, int, string) {
+		var wg, late sync.WaitGroup
+		var bad, n atomic.Int64
+		var detail atomic.Value
+		fn := func() (int, error) { // shared by all executions; nothing it touches is ever reassigned
+			late.Add(1)
+			defer late.Done()
+			time.Sleep(400 * time.Microsecond) // ignores the cancellation: outlives the timeout
+			return 0, errA
+		}
+		for g := 0; g < 8; g++ {
+			wg.Add(1)
+			go func() {
+				defer wg.Done()
+				for i := 0; i < iters/10+1; i++ {
+					n.Add(1)
+					cb := circuitbreaker.Builder[int]().WithFailureThreshold(1000).Build()
+					inner := fallback.BuilderWithFunc[int](func(e failsafe.Execution[int]) (int, error) { return 0, e.LastError() }).Build()
+					hp := hedgepolicy.BuilderWithDelay[int](30 * time.Microsecond).WithMaxHedges(2).CancelOnResult(99).Build()
+					to := timeout.With[int](150 * time.Microsecond)
+					outer := fallback.WithResult[int](-1)
+					r, err := failsafe.NewExecutor[int](outer, to, hp, cb, inner).Get(fn)
+					if err != nil || r != -1 { // the timeout's ErrExceeded is a failure for the outer fallback: always replaced
+						bad.Add(1)
+						detail.Store(fmt.Sprintf("got (%d, %v), want (-1, nil)", r, err))
+					}
+				}
+			}()
+		}
+		wg.Wait()
+		time.Sleep(5 * time.Millisecond) // attempts that were about to start have entered the function
+		late.Wait()
+		d, _ := detail.Load().(string)
+		return int(n.Load()), int(bad.Load()), d
+	})
 	return out
 }
 
